@@ -7,6 +7,7 @@ use duke::tree::descriptor::{ParsedFieldDescriptor, Type};
 use duke::tree::field::{Field, FieldDescriptor, FieldName, FieldNameSlice, FieldRef, FieldSignature};
 use duke::tree::method::{Method, MethodDescriptor, MethodNameAndDesc, MethodParameter, MethodRef, MethodSignature};
 use duke::tree::method::code::{Code, ConstantDynamic, Exception, Handle, Instruction, InstructionListEntry, InvokeDynamic, Loadable, Lv};
+use duke::tree::module::{Module, ModuleProvides};
 use duke::tree::record::{RecordComponent, RecordName};
 use duke::tree::type_annotation::TypeAnnotation;
 use duke::visitor::method::code::{StackMapData, VerificationTypeInfo};
@@ -158,9 +159,9 @@ impl Mappable for ClassFile {
 			runtime_visible_type_annotations: self.runtime_visible_type_annotations.remap(remapper)?,
 			runtime_invisible_type_annotations: self.runtime_invisible_type_annotations.remap(remapper)?,
 
-			module: None, // TODO
-			module_packages: None, // TODO
-			module_main_class: None, // TODO
+			module: self.module.remap(remapper)?,
+			module_packages: self.module_packages, // package names, not class names
+			module_main_class: self.module_main_class.remap(remapper)?,
 
 			nest_host_class: self.nest_host_class.remap(remapper)?,
 			nest_members: self.nest_members.remap(remapper)?,
@@ -309,6 +310,31 @@ impl Mappable for InnerClass {
 				&inner_name
 			)).transpose()?,
 			flags: self.flags,
+		})
+	}
+}
+
+impl Mappable for Module {
+	fn remap(self, remapper: &impl BRemapper) -> Result<Self> {
+		// Only `uses` and `provides` name classes; modules and packages are not renamed by a class remapper.
+		Ok(Module {
+			name: self.name,
+			flags: self.flags,
+			version: self.version,
+			requires: self.requires,
+			exports: self.exports,
+			opens: self.opens,
+			uses: self.uses.remap(remapper)?,
+			provides: self.provides.remap(remapper)?,
+		})
+	}
+}
+
+impl Mappable for ModuleProvides {
+	fn remap(self, remapper: &impl BRemapper) -> Result<Self> {
+		Ok(ModuleProvides {
+			name: (&self.name).remap(remapper)?,
+			provides_with: self.provides_with.remap(remapper)?,
 		})
 	}
 }
